@@ -434,8 +434,8 @@ def r2(ctx):
         ok = bool(sorts) and bool(en) and all(any(f.dominates(s.bb, e.bb) for s in sorts) for e in en)
         key_ok = False
         for s in sorts:
-            for g in prog.closures_of(f):
-                # the key closure reads rule.fix (is_some) and rule.id
+            for g in prog.family(f)[1:]:
+                # the key closure (or named key function) reads rule.fix (is_some) and rule.id
                 fields = set()
                 for b in g.blocks:
                     for st in b["s"]:
